@@ -44,6 +44,7 @@ def generate(st):
         'ints': sw.random() < 0.15,
         'named': sw.random() < 0.25,
         'daily_obs': sw.random() < 0.8,
+        'index_name': sw.choice([None, None, None, 'date', 'obs', 'mixed']),
         'stamp_offset': sw.choice([0, 0, 0, 0, 3600, 86400, 300 * 86400]),     # publishers may stamp ahead of the clock
     }
     if cfg['stamp_offset']:
@@ -207,6 +208,13 @@ def execute(trace, ctx=None):
             s = pd.Series([float(x) for x in data], idx, dtype='float64')
         if named:
             s.name = 'px'
+        iname = cfg.get('index_name')
+        if iname == 'mixed':
+            state['series_made'] = state.get('series_made', 0) + 1
+            iname = 'date' if state['series_made'] % 2 else None
+        if iname:
+            s.index.name = iname
+            res.probe('named-index')
         return s
 
     def lib(fn, what):
@@ -541,7 +549,7 @@ def signature(trace, violation):
 PROBES = ['same-stamp-publication', 'same-stamp-override', 'nan-does-not-override', 'revert-to-earlier-value',
           'date-first-published-later', 'store>=17-rows', 'implicit-now-stamp', 'read-strictly-between-stamps',
           'read-before-first-stamp', 'redelivery-of-version-in-store', 'redelivery-of-overridden-version',
-          'bump-stamp-capped-at-now', 'named-series', 'several-versions-merged-in-one-call', 'stamp-ahead-of-clock']
+          'bump-stamp-capped-at-now', 'named-series', 'several-versions-merged-in-one-call', 'stamp-ahead-of-clock', 'named-index']
 TIERS = {'quick': {'runs': 4000, 'wallcap': 50}, 'thorough': {'runs': 150000, 'wallcap': 800}}
 COMPONENTS = {
     'real': ['pyg_base._bitemporal Bi / bi_merge / bi_read', 'pyg_base._dates.dt (stamp parsing, "now")', 'pandas concat/sort/groupby'],
